@@ -91,6 +91,8 @@ M = [
     ("c08_ip_sorted_by_length_dropped", "insights/cleaner/ip.py", "for ip in sorted(ips or [], key=len, reverse=True):", "for ip in ips or []:"),
     ("c08_password_md5_separator_removed", "insights/cleaner/password.py", "|\\s*--md5+\\s*|", "|"),
     ("c08_pattern_needs_all", "insights/cleaner/pattern.py", "if any(find(pat, line) for pat in self._exclude):", "if all(find(pat, line) for pat in self._exclude):"),
+    ("c08_keyword_replaced_as_whole_word_only", "insights/cleaner/keyword.py", "                line = line.replace(k, v)\n",
+     "                line = __import__(\"re\").sub(r\"(?<![A-Za-z0-9])%s(?![A-Za-z0-9])\" % __import__(\"re\").escape(k), v, line)\n"),
     ("c08_keyword_lowercased_lookup", "insights/cleaner/keyword.py", "            if k in line:\n", "            if k.lower() in line:\n"),
     ("c08_mac_dash_form_missed", "insights/cleaner/mac.py", "([0-9a-fA-F]{2}([:-])(?:[0-9a-fA-F]{2}\\2){4}[0-9a-fA-F]{2})", "([0-9a-fA-F]{2}([:])(?:[0-9a-fA-F]{2}\\2){4}[0-9a-fA-F]{2})"),
     ("c08_ip_last_octet_single_digit_missed", "insights/cleaner/ip.py", "\\b[1-9][0-9]|\\b[0-9])){3})\"", "\\b[1-9][0-9]|\\b[1-9])){3})\""),
